@@ -1,7 +1,7 @@
 import json, os, re
 
 SPEC = {
-    "lean_modules": ["SemaModel.C03.Props"],
+    "lean_modules": ["SemaModel.C03.Props", "SemaModel.C03.Tie"],
     "lean_dirs": ["SemaModel/C03", "SemaModel/C10"],
     "harness": "c03",
     "harness_args": {"quick": ["-n", 1000, "-len", 11], "thorough": ["-n", 7000, "-len", 14]},
@@ -11,6 +11,9 @@ SPEC = {
     "required_theorems": [
         "Sema.C03.C03_safe", "Sema.C03.C03_safe_shard", "Sema.C03.C03_rejects", "Sema.C03.C03_exact_filter",
         "Sema.C03.C03_exact_connected", "Sema.C03.C03_exact_small",
+        # tie theorems (SemaModel/C03/Tie.lean, notes/T1ext.md section 7): the model's DistSet = the definitions generated from shard/index/vamana/distset.go
+        "Sema.C03.C03_tie_len", "Sema.C03.C03_tie_addWithLimit", "Sema.C03.C03_tie_addWithLimit_eq", "Sema.C03.C03_tie_add",
+        "Sema.C03.C03_tie_addAlreadyUnique", "Sema.C03.C03_tie_sort",
     ],
     "trusted_base": [
         "SemaModel/C03/Model.lean (DistSet, greedySearch, Search) and SemaModel/C10/Model.lean (graph build used by C03_exact_small): hand-written, tied to the code by the correspondence above",
